@@ -4,6 +4,7 @@ import ServiceModel.Properties.C17
 import ServiceModel.Properties.C10
 import ServiceModel.Properties.C12
 import ServiceModel.Proofs.RestartStable
+import ServiceModel.Proofs.OnceRestart
 /-!
 # Non-vacuity: the hypotheses of the property theorems are met by concrete, non-trivial reachable states
 
@@ -197,5 +198,20 @@ example : (restart (runOps sR opsR) 7 0).isSome = true := by decide
 theorem s2_continues_to_sR : ContinuesR (fun _ => True) s2 sR := ContinuesR.restart 1 0 ContinuesR.refl sR_is_restart
 example : (get s2.bindings ("svc", "p")).isSome = true ∧ get sR.bindings ("svc", "p") = get s2.bindings ("svc", "p") ∧
     (get s2.owner "p").isSome = true ∧ get sR.owner "p" = get s2.owner "p" := by decide
+
+/-- … and `LeadsR` (C02 / C04 over restarts) is inhabited by a continuation that restarts while requests are pending:
+    `s2` holds pending requests; the chain is restarted, the context started again and a block ended — new requests are
+    pending then, none of them one of the old ones (`C02.request_pending_at_restart_is_settled_for_good`) -/
+theorem leadsR_of_ops : ∀ (ops : List Op) (s : State), wfAll s ops = true → LeadsR s (runOps s ops) := by
+  intro ops
+  induction ops with
+  | nil => intro s _; exact LeadsR.refl s
+  | cons op t ih =>
+    intro s hw
+    simp only [wfAll, Bool.and_eq_true, decide_eq_true_eq] at hw
+    exact LeadsR.step op hw.1 (ih _ hw.2)
+theorem s2_leadsR : LeadsR s2 (runOps sR opsR) := LeadsR.restart 1 0 sR_is_restart (leadsR_of_ops opsR sR (by decide))
+example : s2.activeI.length = 1 ∧ (runOps sR opsR).activeI.length = 2 ∧
+    (s2.activeI.all fun r => !(runOps sR opsR).activeI.contains r) = true := by decide
 
 end SM.NonVacuity
